@@ -161,6 +161,16 @@ CLAIMS = {
         "Trusted: rustc / driver / engine; the EFFECT_RX table of external effects in rules/C14.py; MetadataClient semantics decided under C02 / C13.",
         "static analysis: MIR reachability / edge dominance around persistence points, typed-HIR phase tables, value provenance",
         "DESIGN.md §3 C14"),
+    "C19": (
+        "R1 no call cycle among the functions reachable from route_write inside the cluster module (call-graph DFS over resolved call sites), every CFG loop (SCC) "
+        "on that path contains an Iterator::next that can run out or is an await loop, the retry loop iterates a constant range; R2 each strategy returns a node id "
+        "that derives from get_healthy_ingesters() of this call, or a ring answer dominated by a membership test against that set, or the answer of a ring cleared "
+        "and refilled from that set in this call; assign_shard reuses an assignment only on the true edge of can_accept_writes; R3 Ok(Some(node)) in route_write is "
+        "dominated by the true edge of can_accept_writes; R4 can_accept_writes, symbolically evaluated from HIR, equals Healthy and (Ingester|Combined) and load < 95 "
+        "on every status x type x ordering(load, limit), and get_healthy_ingesters filters with it. Not decided: stability of assignments over membership histories.",
+        "Trusted: rustc / driver / engine; std iterators are finite over finite collections; NodeStatus / NodeType variant tables from the type-checked program.",
+        "static analysis: call-graph cycle detection, CFG SCCs, MIR edge dominance and provenance, symbolic evaluation with exhaustive case enumeration",
+        "DESIGN.md §3 C19"),
 }
 
 NOT_YET = "rule set under construction in this round; see DESIGN.md §3 for the planned static rules"
